@@ -642,6 +642,19 @@ def ft12(F, R):
         for k in ("plain-only-if-none", "decider-defs", "some-implies-dup", "geometry-tests"):
             R.ok(fn, k, "(implied by the direct match)")
         return
+    # form A': matched on self.second_fat_start.map(|s| ..) (possibly through a local with that single definition)
+    def geo_map(x):
+        x = strip_refs(x)
+        if x[0] == "var":
+            ds_ = var_def_terms(fn, x[1])
+            x = strip_refs(ds_[0]) if len(ds_) == 1 else x
+        return x[0] == "call" and (x[1] or "").endswith("Option::map") and (lambda y: y[0] == "place" and last_field(y) == "second_fat_start" and strip_refs(y[1])[:2] == ("arg", 1))(strip_refs(x[2][0]))
+    is_map = lambda var: (lambda g: g.kind == "variant" and g.variant == var and geo_map(g.term))
+    if all(guarded(fn, b, is_map("Some"))[0] for b in wbd) and all(guarded(fn, b, is_map("None"))[0] for b in wb):
+        R.ok(fn, "decider", "write-back variant chosen by matching self.second_fat_start.map(..): Some exactly when the volume has a second FAT")
+        for k in ("plain-only-if-none", "decider-defs", "some-implies-dup", "geometry-tests"):
+            R.ok(fn, k, "(implied by the match on the mapped geometry)")
+        return
     # form B: the deciding local
     R.require(len(wbd) == 1 and len(wb) <= 1, fn, "sites-b", "expected one mirrored write-back (and at most one plain one) in update_fat, found %d / %d" % (len(wbd), len(wb)), fn.loc(0))
     if len(wbd) != 1:
@@ -664,7 +677,7 @@ def ft12(F, R):
     geo_term = lambda x: (lambda y: y[0] == "place" and last_field(y) == "second_fat_start" and strip_refs(y[1])[:2] == ("arg", 1))(strip_refs(x))
     maps = [d for d, t in dts if t[0] == "call" and t[1] and t[1].endswith("Option::map") and geo_term(t[2][0])]
     others = [tstr(t) for d, t in dts if d not in maps and not (t[0] == "agg" and t[2] and (t[2].endswith("Option::Some") or t[2].endswith("Option::None")))]
-    R.require(not others and len(somes) + len(maps) >= 2, fn, "decider-defs", "the duplicate location must be None or Some(location) only (found %s; %d Some-definitions)" % (others, len(somes)), fn.loc(0))
+    R.require(not others and len(somes) + len(maps) >= 1, fn, "decider-defs", "the duplicate location must be None or Some(location) only (found %s; %d Some-definitions)" % (others, len(somes)), fn.loc(0))
     # whenever second_fat_start is Some the local becomes Some before the write-back
     n = 0
     for (gb, gi, g) in all_guards(fn):
@@ -674,6 +687,12 @@ def ft12(F, R):
             free = fn.reach([tgt], cut_blocks=[d[1] for d in somes])
             R.require(not any(b in free for b in wbd + wb), fn, "some-implies-dup", "a path on which second_fat_start is Some reaches the write-back without recording the duplicate location", fn.loc(gb))
     n += len(maps)
+    # one test / map per FAT type's path is what is needed: shared code before the per-type arms serves both
+    from .rules_fs import fat_slices
+    sl = fat_slices(fn)
+    geo_blocks = [d[1] for d in maps] + [gb for (gb, gi, g) in all_guards(fn) if g.kind == "variant" and g.variant == "Some" and g.term[0] == "place" and last_field(g.term) == "second_fat_start" and strip_refs(g.term[1])[:2] == ("arg", 1)]
+    if all(any(b in sl[T] for b in geo_blocks) for T in ("Fat16", "Fat32")):
+        n = max(n, 2)
     R.require(n >= 2, fn, "geometry-tests", "expected the second_fat_start test in both FAT arms, found %d" % n, fn.loc(0))
 
 
@@ -1299,9 +1318,8 @@ def bm2(F, R):
             continue
         dst, src = strip_refs(v[2][0]), v[2][1]
         R.require(has_sub(src, lambda q: q[0] == "call" and q[1] and q[1].endswith("DirEntry::serialize")), fn, "new-entry:bytes", "the bytes copied into the directory are not DirEntry::serialize(..)", fn.loc(b))
-        free = guarded(fn, b, g_call("OnDiskDirEntry::is_valid", False))[0]
-        item = has_sub(dst, lambda q: q[0] == "call" and q[1] and q[1].endswith("Iterator::next"))
-        R.require(free and item, fn, "new-entry:slot", "the new entry must be copied into the slot the scan found free (the loop item under !is_valid())", fn.loc(b))
+        from .rules_walk import free_slot_of
+        R.require(free_slot_of(F, fn, b, v[2][0]) is not None, fn, "new-entry:slot", "the new entry must be copied into the slot the scan found free (the loop item under !is_valid())", fn.loc(b))
 
 
 @rule("RD2", ["C03", "C06", "C01"], floor=2,
@@ -1334,7 +1352,7 @@ def rd2(F, R):
         R.require(ok, fn, "sentinel", "open_root_dir opens %s; the root directory must be opened as the sentinel ClusterId::ROOT_DIR on both FAT types (a child's '..' entry, the FAT16 fixed root and the cluster mapping all key on it)" % sorted(set(got)), fn.loc(b))
 
 
-@rule("FC1", ["C05", "C03", "C02"], floor=4,
+@rule("FC1", ["C05", "C03", "C02", "C04"], floor=5,
       doc="chain-freeing walks follow every link: in free_cluster_chain and truncate_cluster_chain, once next_cluster(cursor) has answered Ok(n) within a trip of the walk, the function cannot finish successfully without going round again - no Ok return is reachable from the Ok(n) edge except through the loop header (the successor carried in an Option local is followed through: Some(n) cannot take the later None arm) - and the cursor's next value is that n; so the walk ends only on EndOfFile or on the header's own range test, never on a 'suspicious' link (a fragmented chain steps backwards all the time)")
 def fc1(F, R):
     from .ev import resolve_variant_temps
@@ -1374,6 +1392,36 @@ def fc1(F, R):
                                     return True
                 return False
             R.require(bool(defs) and all(from_lookup(fn.term_of_rvalue(d[3], d[1])) for d in defs), fn, name + ":cursor=successor", "after Ok(n) the walk's cursor is not set to n", fn.loc(gb))
+    # free_cluster_chain follows links read from the medium: every cluster it frees has been compared with the end of the
+    # cluster range *since the cursor last changed* (not only the chain's first cluster): a damaged link is never "freed"
+    from .ev import cmp_forms
+    from .poly import peq, ADD, C
+    fn = F.fn(FATVOL + "::free_cluster_chain")
+    ncs = [(b, t) for b, t in fn.calls() if call_matches(t, ("FatVolume::next_cluster",))]
+    ups = [(b, t) for b, t in fn.calls() if call_matches(t, ("FatVolume::update_fat",))]
+    if len(ncs) == 1 and ups:
+        cur = strip_refs(fn.term_of_operand(ncs[0][1]["args"][2], ncs[0][0]))
+        end = ADD(("place", ("arg", 1, "self"), ("*", "cluster_count")), C(2))
+
+        def in_range_edge(g):
+            for (op, a, z, truth) in cmp_forms(g):
+                if op == "Lt" and truth and strip_refs(a)[0] == "place" and strip_refs(strip_refs(a)[1]) == cur and peq(z, end):
+                    return True
+            if g.kind == "bool" and g.truth is True and g.term[0] == "call" and (g.term[1] or "").endswith("::contains"):
+                r, x = strip_refs(g.term[2][0]), strip_refs(g.term[2][1])
+                if r[0] == "agg" and len(r[3]) == 2 and peq(r[3][1], end) and x[0] == "place" and strip_refs(x[1]) == cur:
+                    return True
+            return False
+        edges = [(gb, gi) for (gb, gi, g) in all_guards(fn) if in_range_edge(g)]
+        okr = bool(edges) and cur[0] == "var"
+        if okr:
+            for d in fn.defs().get(cur[1], []):
+                if d[0] != "assign":
+                    continue
+                rs = fn.reach([d[1]], cut_edges=edges)
+                if any(b in rs for b, t in ups):
+                    okr = False
+        R.require(okr, fn, "free_cluster_chain:range-per-link", "free_cluster_chain frees a cluster that was not compared with cluster_count + 2 since the cursor was set to it (only the first cluster of the chain is validated): a damaged link makes update_fat write outside the FAT", fn.loc(ups[0][0]))
 
 
 @rule("FO1", ["C07", "C01", "C08"], floor=3,
